@@ -58,7 +58,7 @@ def assoc(F, res):
     ops = it.pratt_ops
     w = "crates/tx3-lang/src/parsing.rs"
     for r in sorted(ops["infix"]):
-        key = "DATA_EXPR_PRATT_PARSER|infix %s" % r
+        key = "Pratt operator table|infix %s" % r
         a = ops["assoc"].get(r)
         if a == "Left":
             res.add([ok("ASSOC", key, w, "Assoc::Left")])
@@ -67,25 +67,23 @@ def assoc(F, res):
     for kind, rule in (("prefix", "data_prefix"), ("postfix", "data_postfix"), ("infix", "data_infix")):
         want = set(G.alts(rule))
         have = set(ops[kind])
-        key = "DATA_EXPR_PRATT_PARSER|%s operators = grammar %s" % (kind, rule)
+        key = "Pratt operator table|%s operators = grammar %s" % (kind, rule)
         if want == have:
             res.add([ok("ASSOC", key, w, "{%s}" % ",".join(sorted(have)))])
         else:
             res.add([finding("ASSOC", key, w, "the grammar's %s alternatives %s differ from the registered %s operators %s" % (rule, sorted(want), kind, sorted(have)))])
     # precedence: order of the .op() registrations (lowest first): infix, prefix, postfix
-    owner = "tx3_lang::parsing::DATA_EXPR_PRATT_PARSER"
     order = []
-    for f in F.fns.values():
-        if f.get("owner") == owner or f["path"].startswith(owner + "::"):
-            for bi, t in mir.calls(f):
-                m = re.match(r"pest::pratt_parser::Op::<R>::(infix|prefix|postfix)$", t.get("callee") or "")
-                if m:
-                    order.append((bi, m.group(1)))
+    for f in it.pratt_bodies:
+        for bi, t in mir.calls(f):
+            m = re.match(r"pest::pratt_parser::Op::<R>::(infix|prefix|postfix)$", t.get("callee") or "")
+            if m:
+                order.append((bi, m.group(1)))
     seq = []
     for _, k in sorted(order):
         if not seq or seq[-1] != k:
             seq.append(k)
-    key = "DATA_EXPR_PRATT_PARSER|precedence order"
+    key = "Pratt operator table|precedence order"
     if seq == ["infix", "prefix", "postfix"]:
         res.add([ok("ASSOC", key, w, "infix (loosest) < prefix < postfix (tightest)")])
     else:
